@@ -56,6 +56,66 @@ func c06Run(r *Run) {
 		}
 		return namedOf(t) == arrT
 	}
+	// an array copier, by role: a function or method of the module with exactly one *ArrayValue input
+	// (parameter or receiver) and a *ArrayValue result whose body allocates a new ArrayValue
+	copierMemo := map[*types.Func]bool{}
+	isCopier := func(f *types.Func) bool {
+		if f == nil {
+			return false
+		}
+		if v, ok := copierMemo[f]; ok {
+			return v
+		}
+		copierMemo[f] = false
+		sig, ok := f.Type().(*types.Signature)
+		if !ok || sig.Results().Len() != 1 || !isArr(sig.Results().At(0).Type()) {
+			return false
+		}
+		inputs := 0
+		if sig.Recv() != nil && isArr(sig.Recv().Type()) {
+			inputs++
+		}
+		for i := 0; i < sig.Params().Len(); i++ {
+			if isArr(sig.Params().At(i).Type()) {
+				inputs++
+			}
+		}
+		if inputs != 1 {
+			return false
+		}
+		hp, hd := r.declAnywhere(f)
+		if hd == nil {
+			return false
+		}
+		allocates := false
+		ast.Inspect(hd.Body, func(n ast.Node) bool {
+			if u, ok := n.(*ast.UnaryExpr); ok && u.Op == token.AND {
+				if cl, ok := u.X.(*ast.CompositeLit); ok && isArr(hp.TypesInfo.TypeOf(cl)) {
+					allocates = true
+				}
+			}
+			return true
+		})
+		copierMemo[f] = allocates
+		return allocates
+	}
+	// copySource: the array a copier call copies (its *ArrayValue argument or receiver), nil if not a copier call
+	copySource := func(info *types.Info, c *ast.CallExpr) ast.Expr {
+		f, _ := calleeOf(info, c).(*types.Func)
+		if !isCopier(f) {
+			return nil
+		}
+		for _, a := range c.Args {
+			if isArr(info.TypeOf(a)) {
+				return a
+			}
+		}
+		if se, ok := ast.Unparen(c.Fun).(*ast.SelectorExpr); ok && isArr(info.TypeOf(se.X)) {
+			return se.X
+		}
+		return nil
+	}
+	c06IsCopierCall = func(info *types.Info, c *ast.CallExpr) bool { return copySource(info, c) != nil }
 	pkgs := []*packages.Package{}
 	for path, p := range r.ByPath {
 		if strings.HasPrefix(path, modPath+"/data") || strings.HasPrefix(path, modPath+"/node") || strings.HasPrefix(path, modPath+"/runtime") || strings.HasPrefix(path, modPath+"/std") {
@@ -287,7 +347,7 @@ func c06Run(r *Run) {
 				}
 				ast.Inspect(is.Body, func(m ast.Node) bool {
 					if c, ok := m.(*ast.CallExpr); ok {
-						if f, ok := calleeOf(info, c).(*types.Func); ok && f.Name() == "CloneArrayValue" {
+						if copySource(info, c) != nil {
 							detaches = true
 						}
 					}
@@ -349,11 +409,11 @@ func c06Run(r *Run) {
 		found := false
 		ast.Inspect(fd.Body, func(n ast.Node) bool {
 			c, ok := n.(*ast.CallExpr)
-			if !ok || len(c.Args) != 1 {
+			if !ok {
 				return true
 			}
-			if f, ok := calleeOf(info, c).(*types.Func); ok && f.Name() == "CloneArrayValue" {
-				if id, ok := ast.Unparen(c.Args[0]).(*ast.Ident); ok && bound[info.Uses[id]] {
+			if src := copySource(info, c); src != nil {
+				if id, ok := ast.Unparen(src).(*ast.Ident); ok && bound[info.Uses[id]] {
 					found = true
 				}
 			}
@@ -432,7 +492,7 @@ func c06Run(r *Run) {
 			continue
 		}
 		if clonesValue(p, fd, param) {
-			r.ok(key, fd.Pos(), "an *ArrayValue placed into this container is copied with CloneArrayValue first")
+			r.ok(key, fd.Pos(), "an *ArrayValue placed into this container is copied first")
 		} else {
 			r.bad(key, fd.Pos(), "stores the value it is given without copying an *ArrayValue: the container and the source keep sharing one array object, so append/unset/sort through one name shows through the other")
 		}
@@ -451,11 +511,9 @@ func c06Run(r *Run) {
 				case *ast.AssignStmt:
 					if len(x.Rhs) == 1 {
 						if c, ok := ast.Unparen(x.Rhs[0]).(*ast.CallExpr); ok {
-							if f, ok := calleeOf(info, c).(*types.Func); ok {
-								if f.Name() == "CloneArrayValue" {
-									if id, ok := x.Lhs[0].(*ast.Ident); ok {
-										cloned[info.Uses[id]] = true
-									}
+							if copySource(info, c) != nil {
+								if id, ok := x.Lhs[0].(*ast.Ident); ok {
+									cloned[info.Uses[id]] = true
 								}
 							}
 						}
@@ -534,6 +592,9 @@ func c06Run(r *Run) {
 	}
 }
 
+// c06IsCopierCall is set by c06Run: the call copies an array (role-based, see isCopier).
+var c06IsCopierCall func(info *types.Info, c *ast.CallExpr) bool
+
 // freshValue: e is a value that cannot be an array shared with another holder: built here
 // (constructor New*/Clone*/make, &T{…}), a scalar by static type, or a local every assignment of
 // which is such an expression.
@@ -573,6 +634,9 @@ func freshValue(info *types.Info, fd *ast.FuncDecl, e ast.Expr, cell string, dep
 			name = f.Sel.Name
 		}
 		if strings.HasPrefix(name, "New") || strings.HasPrefix(name, "Clone") || strings.HasPrefix(name, "new") || strings.HasPrefix(name, "build") || strings.HasPrefix(name, "make") {
+			return true
+		}
+		if c06IsCopierCall != nil && c06IsCopierCall(info, x) {
 			return true
 		}
 	case *ast.Ident:
